@@ -51,6 +51,14 @@ type Contract struct {
 
 func (c *Contract) HasFrame() bool { return c != nil && (c.HasMod || c.Pure) }
 
+type Define struct {
+	Name   string
+	Params []string
+	Text   string
+	E      *CExpr
+	File   string
+}
+
 type AssumedObl struct {
 	Prefix, Reason, File string
 }
@@ -94,6 +102,7 @@ func (p *Program) parseContractFile(file, text string, model bool) error {
 	var cur *Contract
 	var curT *TypeSpec
 	var lastClause *Clause
+	var lastDefine *Define
 	lines := strings.Split(text, "\n")
 	for ln, raw := range lines {
 		l := strings.TrimSpace(raw)
@@ -116,6 +125,7 @@ func (p *Program) parseContractFile(file, text string, model bool) error {
 		}
 		switch {
 		case word == "func":
+			lastDefine = nil
 			c, err := parseFuncHeader(rest)
 			if err != nil {
 				return fmt.Errorf("%s: %v", loc, err)
@@ -127,6 +137,25 @@ func (p *Program) parseContractFile(file, text string, model bool) error {
 			}
 			p.Contracts[c.Fn] = c
 			cur, curT, lastClause = c, nil, nil
+		case word == "define":
+			// define name(p1, p2) := expr   (pure contract-level function, expanded where used)
+			parts := strings.SplitN(rest, ":=", 2)
+			if len(parts) != 2 {
+				return fmt.Errorf("%s: define needs ':='", loc)
+			}
+			hdr, err := parseFuncHeader(strings.TrimSpace(parts[0]))
+			if err != nil {
+				return fmt.Errorf("%s: %v", loc, err)
+			}
+			d := &Define{Name: hdr.Fn, Params: hdr.Params, Text: strings.TrimSpace(parts[1]), File: loc}
+			if p.Defines == nil {
+				p.Defines = map[string]*Define{}
+			}
+			p.Defines[d.Name] = d
+			cur, curT = nil, nil
+			lastClause = &Clause{Text: d.Text}
+			lastDefine = d
+			d.E, _ = ParseCExpr(d.Text)
 		case word == "assume_obligation":
 			// assume_obligation <obligation name prefix> :: reason
 			parts := strings.SplitN(rest, "::", 2)
@@ -151,6 +180,10 @@ func (p *Program) parseContractFile(file, text string, model bool) error {
 				lastClause.E = nil
 			} else {
 				lastClause.E = e
+			}
+			if lastDefine != nil && cur == nil && curT == nil {
+				lastDefine.Text = lastClause.Text
+				lastDefine.E = lastClause.E
 			}
 		case curT != nil:
 			switch word {
@@ -279,6 +312,12 @@ func (p *Program) parseContractFile(file, text string, model bool) error {
 			}
 		default:
 			return fmt.Errorf("%s: clause outside a func/type block: %q", loc, l)
+		}
+	}
+	for _, d := range p.Defines {
+		if d.E == nil {
+			_, err := ParseCExpr(d.Text)
+			return fmt.Errorf("%s: cannot parse definition of %s: %v", d.File, d.Name, err)
 		}
 	}
 	// all clauses must have parsed
